@@ -98,6 +98,23 @@ def pub_raw(K, c, depth, fp, num, network, pub_version):
     return (first, p.raw_serialize(), p._serialize(p.pub_version))
 
 
+def pub_child_after_serialize(K, c, depth, fp, num, i):
+    """history: the parent is serialised first (its memo HDPublicKey._raw is filled), then the child is derived;
+    the child's serialisation must be the child's own 78 bytes"""
+    p = mk_pub(K, c, depth, fp, num)
+    p.raw_serialize()
+    ch = p.child(i)
+    return (ch.raw_serialize(),) + pub_fields(ch)
+
+
+def priv_child_after_serialize(k, c, depth, fp, num, i):
+    """the same through a private node: parent and its public twin serialised, then child(i)"""
+    n = mk_priv(k, c, depth, fp, num)
+    n.pub.raw_serialize()
+    ch = n.child(i)
+    return (ch.pub.raw_serialize(),) + priv_fields(ch)
+
+
 def priv_raw_parse(raw):
     n = HDPrivateKey.raw_parse(BytesIO(raw))
     return (n.priv_version, n.depth, n.parent_fingerprint, n.child_number, n.chain_code,
